@@ -97,7 +97,7 @@ def check(F, rep):
     prim = None
     # ---- pushes: only in the Unusable / Inactive arms of the status match over those entries
     sw = [x for x in enum_switches(F, f, STATUS)]
-    rep.exact("candidates", "match on the path status", len(sw), 1)
+    rep.floor("candidates", "tests of the path status", len(sw), 1)
     pushes = find_calls(f, regex=r"^alloc::vec::Vec::push$")
     rep.exact("candidates", "pushes onto the candidate lists", len(pushes), 2)
     lists = {}
@@ -114,7 +114,11 @@ def check(F, rep):
                 srcs_ok.append(fl and rt)
         rep.ob("candidates", item_ok and bool(srcs_ok) and all(srcs_ok), site(f, sb), "the entries whose status is matched are the map's entries filtered by `!addr.is_relay()`", skey(F, f, "non-relay-filter"))
         for b, t in pushes:
-            arm = [v for v, tb in arms.items() if b in arm_region(f, sb, tb)]
+            # which status variants can reach this push: the push must become unreachable
+            # when the variant's edge of some status test is removed (also through a
+            # `matches!` flag or an if-let chain)
+            from ..analysis import reachable_fs
+            arm = sorted({v for sb_, pl_, arms_, other_ in sw for v, tb in arms_.items() if b not in reachable_fs(f, 0, removed_edges={(sb_, tb)})})
             recv = arg_ref_target(f, t["args"][0])
             val = op_base(t["args"][1])
             # the address pushed is (a clone of) the entry's key
@@ -129,6 +133,39 @@ def check(F, rep):
             if len(arm) == 1:
                 lists[arm[0]] = recv
     failed, inactive = lists.get("Unusable"), lists.get("Inactive")
+    def root_kind(b, key_op):
+        """which candidate list the key of a per-element call in a loop comes from"""
+        k = copy_sources(f, op_base(key_op))
+        okk = bool(k) and all(x[0] == "call" and x[1].endswith("Iterator::next") for x in k)
+        kind = "other"
+        for nb_, nt_ in find_calls(f, "core::iter::traits::iterator::Iterator::next"):
+            if b in f.reachable(nb_) and f.dominates(nb_, b) and okk:
+                l = op_base(nt_["args"][0])
+                for _ in range(10):
+                    dc = def_call(f, l) if l is not None else None
+                    if dc is not None and call_matches(dc[1], r"IntoIterator::into_iter$|slice::.*iter$|Vec::iter$|Deref::deref$|Iterator::map$"):
+                        l = op_base(dc[1]["args"][0])
+                        continue
+                    if dc is not None and call_matches(dc[1], r"Vec::split_off$"):
+                        kind = "split"
+                        break
+                    nxt = None
+                    for b_, i_, s_ in f.stmts():
+                        if s_["k"] == "a" and s_["lhs"] == {"l": l}:
+                            rv = s_["rv"]
+                            if rv["k"] == "use" and rv["o"]["k"] in ("copy", "move") and not rv["o"]["p"].get("p"):
+                                nxt = rv["o"]["p"]["l"]
+                            elif rv["k"] == "ref" and all(e[0] == "deref" for e in rv["p"].get("p", [])):
+                                nxt = rv["p"]["l"]
+                    if nxt is None:
+                        if l == failed:
+                            kind = "failed"
+                        break
+                    if nxt == failed or l == failed:
+                        kind = "failed"
+                        break
+                    l = nxt
+        return kind
     # ---- retain removes exactly the prune set
     ret = find_calls(f, regex=r"HashMap::retain$")
     rems = [(b, t) for b, t in find_calls(f, regex=r"HashMap::remove$") if copy_sources(f, op_base(t["args"][0])) == {("arg", 1, ())}]
@@ -137,40 +174,7 @@ def check(F, rep):
     removal_sites = [b for b, t in ret] + [b for b, t in rems]
     rep.ob("candidates", (len(ret) == 1 and not rems) or (not ret and len(rems) == 2), site(f), "entries are removed either by one retain(..) or by one remove loop per candidate list (%d retain, %d remove)" % (len(ret), len(rems)), skey(F, f, "removal-form"))
     if rems and not ret and failed is not None:
-        kinds = []
-        for b, t in rems:
-            k = copy_sources(f, op_base(t["args"][1]))
-            okk = bool(k) and all(x[0] == "call" and x[1].endswith("Iterator::next") for x in k)
-            kind = "other"
-            for nb_, nt_ in find_calls(f, "core::iter::traits::iterator::Iterator::next"):
-                if b in f.reachable(nb_) and f.dominates(nb_, b) and okk:
-                    # root collection of this loop's iterator
-                    l = op_base(nt_["args"][0])
-                    for _ in range(10):
-                        dc = def_call(f, l) if l is not None else None
-                        if dc is not None and call_matches(dc[1], r"IntoIterator::into_iter$|slice::.*iter$|Vec::iter$|Deref::deref$|Iterator::map$"):
-                            l = op_base(dc[1]["args"][0])
-                            continue
-                        if dc is not None and call_matches(dc[1], r"Vec::split_off$"):
-                            kind = "split"
-                            break
-                        nxt = None
-                        for b_, i_, s_ in f.stmts():
-                            if s_["k"] == "a" and s_["lhs"] == {"l": l}:
-                                rv = s_["rv"]
-                                if rv["k"] == "use" and rv["o"]["k"] in ("copy", "move") and not rv["o"]["p"].get("p"):
-                                    nxt = rv["o"]["p"]["l"]
-                                elif rv["k"] == "ref" and all(e[0] == "deref" for e in rv["p"].get("p", [])):
-                                    nxt = rv["p"]["l"]
-                        if nxt is None:
-                            if l == failed:
-                                kind = "failed"
-                            break
-                        if nxt == failed or l == failed:
-                            kind = "failed"
-                            break
-                        l = nxt
-            kinds.append(kind)
+        kinds = [root_kind(b, t["args"][1]) for b, t in rems]
         rep.ob("candidates", sorted(kinds) == ["failed", "split"], site(f, rems[0][0]), "the removed keys are exactly the addresses of the failed list and of the split-off part of the closed list (%s)" % kinds, skey(F, f, "prune-set"))
     if ret:
         rb, rt = ret[0]
@@ -179,10 +183,18 @@ def check(F, rep):
         okc = False
         if c is not None:
             rep.fn(c)
-            cc = list(c.calls())
+            from ..inline import inlined
+            c = inlined(F, c, select=lambda f_, h_: h_.crate == f_.crate and h_.file == f_.file and h_.kind in ("Fn", "AssocFn") and not h_.coroutine and h_.vis != "pub" and len(h_.blocks) <= 40)
+            cc = [(cb, ct) for cb, ct in c.calls()]
             nots = [s for b, i, s in c.stmts() if s["k"] == "a" and s["lhs"]["l"] == 0 and s["rv"]["k"] == "un" and s["rv"].get("op") == "Not"]
-            okc = len(cc) == 1 and call_matches(cc[0][1], r"HashSet::contains$") and len(nots) == 1 and op_local(nots[0]["rv"]["a"]) == cc[0][1]["dest"]["l"] \
-                and copy_sources(c, op_base(cc[0][1]["args"][1])) == {("arg", 2, ())}
+            from .. import booltab
+            okc = len(cc) == 1 and call_matches(cc[0][1], r"HashSet::contains$") and copy_sources(c, op_base(cc[0][1]["args"][1])) == {("arg", 2, ())}
+            if okc:
+                try:
+                    paths = booltab.extract(c)
+                    okc = all(booltab.evaluate(paths, lambda a, v=v: v) == (not v) for v in (False, True))
+                except booltab.Unsupported:
+                    okc = False
         rep.ob("candidates", okc, site(f, rb), "retain keeps an entry iff its address is not in the prune set", skey(F, f, "retain-pred"))
         # the prune set = failed ++ addresses of the split-off part
         caps = [s["rv"] for b, i, s in f.stmts() if s["k"] == "a" and s["lhs"]["l"] == op_base(rt["args"][1]) and s["rv"]["k"] == "agg"]
@@ -194,6 +206,15 @@ def check(F, rep):
                 if cl:
                     setl = cl[0]
         oks = False
+        if setl is None and failed is not None:
+            # the set is filled by explicit loops: `for addr in failed { set.insert(addr) }` ...
+            setlocals = set()
+            for rv in caps:
+                for o in rv["ops"]:
+                    setlocals |= chain_locals(f, op_base(o))
+            ins = [(b, t) for b, t in find_calls(f, regex=r"HashSet::insert$") if arg_ref_target(f, t["args"][0]) in setlocals or chain_locals(f, op_base(t["args"][0])) & setlocals]
+            kinds = [root_kind(b, t["args"][1]) for b, t in ins]
+            oks = sorted(kinds) == ["failed", "split"]
         if setl is not None and so and failed is not None:
             # walk the iterator adapter chain feeding collect(): chain(a, b), map(x, _), into_iter(v)
             vecs, unknown = [], []
@@ -250,7 +271,7 @@ def check(F, rep):
     if so and inactive is not None:
         sb_, st = so[0]
         rep.ob("recency", arg_ref_target(f, st["args"][0]) == inactive, site(f, sb_), "split_off is applied to the closed-paths list", skey(F, f, "split-on-inactive"))
-        sorts = [(b, t) for b, t in find_calls(f, regex=r"sort_by_key$|sort_unstable_by_key$") if inactive in du.closure(op_base(t["args"][0])) | copy_source_locals(f, op_base(t["args"][0]))]
+        sorts = [(b, t) for b, t in find_calls(f, regex=r"sort_by_key$|sort_unstable_by_key$|sort_by$|sort_unstable_by$") if inactive in du.closure(op_base(t["args"][0])) | copy_source_locals(f, op_base(t["args"][0]))]
         desc = False
         if len(sorts) == 1 and f.dominates(sorts[0][0], sb_):
             c = _closure_of(F, f, sorts[0][1]["args"][1])
@@ -258,6 +279,12 @@ def check(F, rep):
                 rep.fn(c)
                 rets = [(b, i, rv) for b, i, rv in returns_of(c) if i is not None]
                 desc = len(rets) == 1 and rets[0][2]["k"] == "agg" and "Reverse" in str(rets[0][2].get("adt")) and copy_sources(c, op_base(rets[0][2]["ops"][0])) == {("arg", 2, ("1",))}
+                # comparator idiom: |a, b| b.1.cmp(&a.1)
+                cmps = [(cb, ct) for cb, ct in c.calls() if call_matches(ct, r"^core::cmp::Ord::cmp$|^core::cmp::PartialOrd::partial_cmp$")]
+                if not desc and len(cmps) == 1 and cmps[0][1]["dest"]["l"] == 0:
+                    x0 = copy_sources(c, op_base(cmps[0][1]["args"][0]))
+                    x1 = copy_sources(c, op_base(cmps[0][1]["args"][1]))
+                    desc = x0 == {("arg", 3, ("1",))} and x1 == {("arg", 2, ("1",))}
         rep.ob("recency", desc, site(f, sorts[0][0] if sorts else sb_), "before splitting, the closed paths are sorted by Reverse(close time): most recently closed first", skey(F, f, "sorted-desc"))
         # index expression as a function of n = inactive.len()
         at = st["args"][1]
